@@ -1,4 +1,5 @@
 From BB Require Import Base Ref TapeModel InstrsModel MachineModel ReasonModel SegmentModel CpsModel.
+From BB Require Import ProverModel.
 From BB.Properties Require Import C15.
 
 Check C15_for_upto_mono : forall (St Rs : Type) (body : St -> St + Rs) n m s r,
@@ -17,3 +18,16 @@ Check C15_seg_mono : forall prog params goal s s',
   sg_segment_cant_reach prog params s' goal = sg_segment_cant_reach prog params s goal.
 Check C15_cps_mono : forall order prog goal r r',
   cps_run order prog r goal = Ok true -> r <= r' -> cps_run order prog r' goal = Ok true.
+Check C15_for_upto_agree : forall (St Rs : Type) (body : St -> St + Rs) n m s r r',
+  for_upto n body s = inr r -> for_upto m body s = inr r' -> r = r'.
+Check C15_prover_mono : forall comp n m r,
+  run_prover comp n = Ok r -> r_result r <> xlimit -> n <= m -> run_prover comp m = Ok r.
+Check C15_quick_agree : forall comp n m,
+  r_result (run_quick comp n) <> xlimit -> r_result (run_quick comp m) <> xlimit ->
+  run_quick comp m = run_quick comp n.
+Check C15_rec_agree : forall comp n m,
+  quick_term_or_rec comp n <> RLimit -> quick_term_or_rec comp m <> RLimit ->
+  quick_term_or_rec comp m = quick_term_or_rec comp n.
+Check C15_bw_halt_agree : forall sw comp d d',
+  cant_halt_sw sw comp d <> Ok BwStepLimit -> cant_halt_sw sw comp d' <> Ok BwStepLimit ->
+  cant_halt_sw sw comp d' = cant_halt_sw sw comp d.
